@@ -1,0 +1,12 @@
+//go:build verif
+// +build verif
+
+package modm
+
+// Verification exports.  Compiled only with the `verif` build tag.
+
+// VerifReduce calls reduce (one conditional subtraction of L).
+func VerifReduce(r *Bignum256) { reduce(r) }
+
+// VerifBarrettReduce calls barrettReduce.
+func VerifBarrettReduce(r, q1, r1 *Bignum256) { barrettReduce(r, q1, r1) }
